@@ -15,7 +15,7 @@ use super::script::{self, *};
 use super::{chk, finish, harness};
 use crate::{BackpressurePolicy, Dispatcher, Effect, StoreImpl};
 use std::sync::Arc;
-use std::time::Instant;
+use super::rt::Instant;
 
 pub static mut SUM_EFF: [u8; MAXA] = [0; MAXA];
 pub static mut SUM_ARG: [u8; MAXA] = [0; MAXA];
